@@ -99,6 +99,7 @@ let rec obs_sx = function
   | L [A "concatr"; l] -> OConcatR (lit_sx l)
   | L [A "concatl"; l] -> OConcatL (lit_sx l)
   | L [A "concatl_broken"; l] -> OConcatL_broken (lit_sx l)
+  | L [A "concatl_prefix"; l] -> OConcatL_prefix (lit_sx l)
   | L [A "slice"; s; e] -> OSlice (nat_of_int (int_sx s), nat_of_int (int_sx e))
   | L [A "slicep"; s; e] -> OSliceP (nat_of_int (int_sx s), nat_of_int (int_sx e))
   | L [A "foldl"; f; z] -> OFoldL (fun2_sx f, z_of_int (int_sx z))
